@@ -17,9 +17,16 @@ for m in idx:
         continue
     r = subprocess.run([os.path.join(HERE, "tools", "mutant.py"), os.path.join(HERE, "mutants", m["patch"])] + m["checks"],
                        stdout=subprocess.PIPE, stderr=subprocess.STDOUT, text=True)
-    status = "OK" if r.returncode == 0 else "MISSED"
-    if r.returncode != 0:
-        bad += 1
+    if m.get("expect") == "silent":
+        # a behaviour-preserving (or property-irrelevant) edit: every named check must stay silent
+        silent = "FIRED" not in r.stdout and "DOES NOT APPLY" not in r.stdout
+        status = "OK-SILENT" if silent else "FALSE-ALARM"
+        if not silent:
+            bad += 1
+    else:
+        status = "OK" if r.returncode == 0 else "MISSED"
+        if r.returncode != 0:
+            bad += 1
     print("[%s] %s (%s)" % (status, m["patch"], m["what"]))
     for l in r.stdout.splitlines():
         if "FIRED" in l or "SILENT" in l or l.strip().startswith("key=") or "DOES NOT APPLY" in l:
